@@ -16,10 +16,10 @@ func propC09() *Property {
 		Explanation: "Static path-fact rules on the three gatekeepers and their wiring. Decided: (R1) the closure that constructs outbox entries returns the activity only on paths that know the owning actor's id is non-nil and that activity.ActorIdentifier().String() equals it; every other return is a NewFailure item, never nil (impostors appear in place as error items); (R2) the same for replies with comment.ParentIdentifier() and the post's id; (R3) wiring: the \"outbox\" collection receives R1's closure and \"replies\"/\"comments\" receive R2's, Collection.construct is stored only from the constructor's parameter, every delivered element of a page is construct(elements[k], c.id) stored at its own slot and following pages inherit the same construct; (R4) NewPostFromObject succeeds only after a loop over all creators (after the fan-out joined) in which every *Actor either has a nil id together with a nil post id, or both non-nil with equal Host — everything else reaches the 'forged creators' error; (R5) the identifier accessors return the validated id fields and nothing else. Not decided: end-to-end behaviour on generated worlds; that string equality of URLs is the right notion of identity.",
 		Assumptions: []string{"the ids compared are the validated ids established by C02"},
 		Rules: []Rule{
-			{ID: "C09.R1", Title: "outbox gatekeeper compares the activity's actor with the owner", Floor: 4, Run: func(c *Ctx) { c09Gate(c, "NewActorFromObject", "NewActivity", "ActorIdentifier") }},
-			{ID: "C09.R2", Title: "reply gatekeeper compares the comment's parent with this post", Floor: 4, Run: func(c *Ctx) { c09Gate(c, "NewPostFromObject", "NewPost", "ParentIdentifier") }},
-			{ID: "C09.R3", Title: "gatekeepers are wired to their collections and applied to every element", Floor: 8, Run: c09R3},
-			{ID: "C09.R4", Title: "authors live on the post's host", Floor: 3, Run: c09R4},
+			{ID: "C09.R1", Title: "outbox gatekeeper compares the activity's actor with the owner", Floor: 2, Run: func(c *Ctx) { c09Gate(c, "NewActorFromObject", "NewActivity", "ActorIdentifier") }},
+			{ID: "C09.R2", Title: "reply gatekeeper compares the comment's parent with this post", Floor: 2, Run: func(c *Ctx) { c09Gate(c, "NewPostFromObject", "NewPost", "ParentIdentifier") }},
+			{ID: "C09.R3", Title: "gatekeepers are wired to their collections and applied to every element", Floor: 7, Run: c09R3},
+			{ID: "C09.R4", Title: "authors live on the post's host", Floor: 1, Run: c09R4},
 			{ID: "C09.R5", Title: "identifier accessors return validated ids only", Floor: 5, Run: c09R5},
 		},
 	}
